@@ -377,3 +377,38 @@ example : navSeq schAB stAB [0, 20] [⟨2, "R9", ""⟩] = none ∧ navigate schA
 example : KeysSet (fun x _ => some (Int.ofNat x)) [3, 1, 2] ["v"] := by intro x _ a _; simp
 
 end PyxProps.C09
+
+/-! ==========================================================================================================
+  AUDIT ROUND 2 (Task B, item 3) — "a different IR gives a different function": the interpreters of Proofs/QueryShape.lean
+  run on statement structures OTHER than the generated ones compute other results, so the `…_as_in_source` equalities
+  above are not equalities that any IR would satisfy  — appended section (builder G)
+  ========================================================================================================== -/
+namespace PyxProps.C09
+open Pyx.Meta Pyx.Query Pyx.QShape Pyx.Gen.QueryShape
+
+def valPQ : Valuation := fun x a => if a = "P" then some (Int.ofNat (x % 2)) else some (Int.ofNat x)
+
+/-- where_eq: breaking on EQUAL items / yielding the instances whose loop BROKE selects the complement;
+    order_by: a `sorted` call that does not pass the reverse flag sorts ascending where the source sorts descending;
+    result forms: `next(iter(…), None)` for a set-valued selection keeps one instance, a QuerySet for select_one is the
+    same FIRST element (equivalent, as the audit's mutation table says) -/
+example : iWhere whereShape valPQ [("P", some 1)] [1, 2, 3, 4] = [1, 3] ∧
+    iWhere { whereShape with breakWhen := .eq } valPQ [("P", some 1)] [1, 2, 3, 4] = [2, 4] ∧
+    iWhere { whereShape with yieldWhen := .broke } valPQ [("P", some 1)] [1, 2, 3, 4] = [2, 4] ∧
+    iOrder orderShape valPQ ["P"] true [1, 2, 3, 4] = [1, 3, 2, 4] ∧
+    iOrder { orderShape with passesReverseFlag := false } valPQ ["P"] true [1, 2, 3, 4] = [2, 4, 1, 3] ∧
+    iMany selectManyResult [3, 1, 3, 2] = [3, 1, 2] ∧ iMany .firstOrNone [3, 1, 3, 2] = [3] ∧
+    iOne selectOneResult [3, 1, 3, 2] = some 3 := by decide
+
+/-- the dispatch of apply_query_operators: the generated chain calls a where_eq / order_by operator and wraps a dict; a chain
+    without tests sends everything to the `else:` branch (filter with the operator as a predicate) -/
+example : pickAct opDispatch opElse .whereEqual = .callOp ∧ pickAct opDispatch opElse .callable = .filterWith ∧
+    pickAct [] opElse .whereEqual = .filterWith ∧
+    pickAct [(.isDict, .wrapWhereEqual), (.isWhereEqual, .callOp)] opElse .whereEqual = .wrapWhereEqual := by decide
+
+/-- navigation through an association class: a skip test that ignores the relation id of the first hop finds the same
+    two-hop route here, a skip test that is always true finds none (UnknownLinkException) -/
+example : iNavigate assocSkip schAB stAB 0 1 "R2" "" = some [20, 21] ∧
+    iNavigate (.or (.atom .relDiffers) (.not (.atom .relDiffers))) schAB stAB 0 1 "R2" "" = none := by decide
+
+end PyxProps.C09
